@@ -429,6 +429,7 @@ impl Resolver {
             sylt_parser::pa_shape(*assignable), //# C07 assignable.pre.parser_tree_shape
 
             old(self).inv(), //# C07 assignable.pre.ids_in_range
+            old(self).stack@.len() > 0, //# C09 assignable.pre.resolved_inside_a_scope
 
         ensures
             r is Ok ==> final(self).stack@ == old(self).stack@, //# C09,C02 assignable.scope_restored
@@ -485,6 +486,7 @@ impl Resolver {
             forall|i: int| 0 <= i < expr@.len() ==> sylt_parser::pe_shape(#[trigger] expr@[i]), //# C07 collection.pre.parser_tree_shape
 
             old(self).inv(), //# C07 collection.pre.ids_in_range
+            old(self).stack@.len() > 0, //# C09 collection.pre.resolved_inside_a_scope
 
         ensures
             r is Ok ==> final(self).stack@ == old(self).stack@, //# C09,C02 collection.scope_restored
@@ -522,6 +524,7 @@ impl Resolver {
             sylt_parser::pe_shape(*a), sylt_parser::pe_shape(*b), !(op is Nop), //# C07 binop.pre.parser_tree_shape
 
             old(self).inv(), //# C07 binop.pre.ids_in_range
+            old(self).stack@.len() > 0, //# C09 binop.pre.resolved_inside_a_scope
 
         ensures
             r is Ok ==> final(self).stack@ == old(self).stack@, //# C09,C02 binop.scope_restored
@@ -549,6 +552,7 @@ impl Resolver {
             sylt_parser::pe_shape(*a), //# C07 uniop.pre.parser_tree_shape
 
             old(self).inv(), //# C07 uniop.pre.ids_in_range
+            old(self).stack@.len() > 0, //# C09 uniop.pre.resolved_inside_a_scope
 
         ensures
             r is Ok ==> final(self).stack@ == old(self).stack@, //# C09,C02 uniop.scope_restored
@@ -576,6 +580,7 @@ impl Resolver {
             sylt_parser::pib_shape(*branch), //# C07 if_branch.pre.parser_tree_shape
 
             old(self).inv(), //# C07 if_branch.pre.ids_in_range
+            old(self).stack@.len() > 0, //# C09 if_branch.pre.resolved_inside_a_scope
 
         ensures
             r is Ok ==> final(self).stack@ == old(self).stack@, //# C09,C02 if_branch.scope_restored
@@ -615,6 +620,7 @@ impl Resolver {
             sylt_parser::pcb_shape(*branch), //# C07 case_branch.pre.parser_tree_shape
 
             old(self).inv(), //# C07 case_branch.pre.ids_in_range
+            old(self).stack@.len() > 0, //# C09 case_branch.pre.resolved_inside_a_scope
 
         ensures
             r is Ok ==> final(self).stack@ == old(self).stack@, //# C09,C02 case_branch.scope_restored
@@ -651,6 +657,7 @@ impl Resolver {
             sylt_parser::pall_shape(parser_stmts@), //# C07 block.pre.parser_tree_shape
 
             old(self).inv(), //# C07 block.pre.ids_in_range
+            old(self).stack@.len() > 0, //# C09 block.pre.resolved_inside_a_scope
 
         ensures
             is_prefix(old(self).stack@, final(self).stack@), //# C09,C02 block.only_appends_bindings
@@ -683,6 +690,7 @@ impl Resolver {
             sylt_parser::pe_shape(*expr), //# C07 expression.pre.parser_tree_shape
 
             old(self).inv(), //# C07 expression.pre.ids_in_range
+            old(self).stack@.len() > 0, //# C09 expression.pre.resolved_inside_a_scope
 
         ensures
             r is Ok ==> final(self).stack@ == old(self).stack@, //# C09,C02 expression.scope_restored
@@ -795,6 +803,7 @@ impl Resolver {
             sylt_parser::ps_shape(*stmt), //# C07 statement.pre.parser_tree_shape
 
             old(self).inv(), //# C07 statement.pre.ids_in_range
+            old(self).stack@.len() == 0 ==> sylt_parser::top_kind(*stmt), //# C09 statement.pre.only_top_level_statements_are_resolved_outside_a_scope
 
         ensures
             is_prefix(old(self).stack@, final(self).stack@) || (old(self).stack@.len() == 0), //# C09 statement.never_pops_callers_bindings
